@@ -1,7 +1,7 @@
 #!/bin/bash
 # usage: seedrun.sh <patch.diff> <tier> <prop>...  — apply a seeded change to /repo, run the checks, undo it
 p=$1; tier=$2; shift 2
-git -C /repo status --porcelain | grep -q . && { echo "/repo not clean"; exit 2; }
+git -C /repo status --porcelain -uno | grep -q . && { echo "/repo not clean"; exit 2; }
 git -C /repo apply $p || exit 2
 for prop in "$@"; do
   out=$(cd /verif && ./check $prop --tier $tier 2>&1)
